@@ -64,6 +64,25 @@ type halfConn struct {
 	closed  chan struct{}
 	once    sync.Once
 	peerEnd *halfConn
+	pending atomic.Int64 // frames queued for / partially read by this end (its share of network.inflight)
+}
+
+// addPending / donePending keep the end's share of the in-flight count; retire() can hand the whole share back at once
+func (h *halfConn) addPending() {
+	h.pending.Add(1)
+	h.net.inflight.Add(1)
+}
+func (h *halfConn) donePending() {
+	for {
+		p := h.pending.Load()
+		if p == 0 {
+			return
+		}
+		if h.pending.CompareAndSwap(p, p-1) {
+			h.net.inflight.Add(-1)
+			return
+		}
+	}
 }
 
 func (h *halfConn) Write(p []byte) (int, error) {
@@ -83,11 +102,11 @@ func (h *halfConn) Write(p []byte) (int, error) {
 		pkt := &floodsub.Packet{}
 		_ = pkt.UnmarshalVT(frame[4:])
 		h.net.record(frameEvent{From: h.self, To: h.other, Pkt: pkt})
-		h.net.inflight.Add(1)
+		h.peerEnd.addPending()
 		select {
 		case h.peerEnd.rq <- frame:
 		case <-h.peerEnd.closed:
-			h.net.inflight.Add(-1)
+			h.peerEnd.donePending()
 		}
 	}
 	return len(p), nil
@@ -106,7 +125,7 @@ func (h *halfConn) Read(p []byte) (int, error) {
 	n := copy(p, h.rcur)
 	h.rcur = h.rcur[n:]
 	if len(h.rcur) == 0 {
-		h.net.inflight.Add(-1)
+		h.donePending()
 	}
 	return n, nil
 }
@@ -206,7 +225,23 @@ func newMesh(le *logrus.Entry, tag string, names []string, topo [][]string) *mes
 	return m
 }
 
+// retire closes a replaced stream end and takes the frames nobody will read any more out of the in-flight count
+func (m *mesh) retire(h *halfConn) {
+	if h == nil {
+		return
+	}
+	h.Close()
+	m.net.inflight.Add(-h.pending.Swap(0))
+}
+
 func (m *mesh) connect(a, b string, linkID uint64) {
+	// a re-opened stream replaces the old pair of ends
+	if na := m.nodes[a]; na != nil {
+		if old := na.ends[b]; old != nil {
+			m.retire(old)
+			m.retire(old.peerEnd)
+		}
+	}
 	ea := &halfConn{net: m.net, self: a, other: b, rq: make(chan []byte, 256), closed: make(chan struct{})}
 	eb := &halfConn{net: m.net, self: b, other: a, rq: make(chan []byte, 256), closed: make(chan struct{})}
 	ea.peerEnd, eb.peerEnd = eb, ea
@@ -343,7 +378,7 @@ type mstep struct {
 	N    string   `json:"n"`
 	ID   int      `json:"id"`
 	Subs []string `json:"subs"`
-	W    bool     `json:"w"` // wait for the mesh to settle after the step (FloodSubDyn.tla histories)
+	W    bool     `json:"w"`   // wait for the mesh to settle after the step (FloodSubDyn.tla histories)
 	Cls  string   `json:"cls"` // inject: class of the injected frame (default: cycle through the forged classes)
 }
 type behaviour struct {
@@ -572,7 +607,7 @@ func runMesh(bi int, b behaviour, le *logrus.Entry, rows *[]map[string]any) {
 			frame := make([]byte, 4+len(body))
 			binary.LittleEndian.PutUint32(frame, uint32(len(body)))
 			copy(frame[4:], body)
-			m.net.inflight.Add(1)
+			end.addPending()
 			end.rq <- frame
 			emit(map[string]any{"e": "inject", "from": from, "to": s.N, "cls": cls})
 		}
